@@ -453,8 +453,63 @@ def main_padskirt(cases):
     return out
 
 
+def main_meanparts(cases):
+    """[h, w, c, mode (0 = H and W, 1 = H only, 2 = W only), keep_dims]: one MEAN; what convert_mean_to_depthwise_conv makes of
+    it: the depthwise convolutions that reach the result (found by walking back from the returned operator), each with
+    the row it starts reading at, the rows it reads, its kernel (height, width), and the extents of the map they read"""
+    import numpy as np
+    from ethosu.vela import model_reader
+    from ethosu.vela.architecture_features import Accelerator, create_default_arch
+    from ethosu.vela.operation import Op
+    from ethosu.vela.tflite_graph_optimiser import convert_mean_to_depthwise_conv
+    arch = create_default_arch(Accelerator.Ethos_U55_128)
+    out = []
+    tmp = tempfile.mkdtemp(prefix="rw_", dir=os.environ.get("VERIF_TMP"))
+    for i, case in enumerate(cases):
+        h, w, c, mode, keep = case
+        rng = random.Random(str(case))
+        net = netgen.Net("meanparts")
+        x = net.input([1, h, w, c], "int8", 0.05, 3)
+        y = netgen.mean(net, rng, x, [(1, 2), (1,), (2,)][mode], keep=bool(keep))
+        net.output(y)
+        path = os.path.join(tmp, "m%d.tflite" % i)
+        open(path, "wb").write(net.build())
+        nng, _ = model_reader.read_model(path, model_reader.ModelReaderOptions())
+        os.remove(path)
+        op = [o for o in nng.subgraphs[0].get_all_ops() if o.type == Op.Mean][0]
+        from ethosu.vela.tflite_model_semantic import TFLiteSemantic
+        if not (TFLiteSemantic().is_operator_semantic_valid(op) and arch.tflite_supported_operators.is_operator_supported(op)):
+            out.append({"result_type": "not for the NPU", "convs": []})
+            continue
+        op.run_on_npu = True
+        op.set_ifm_ofm_shapes()
+        res = convert_mean_to_depthwise_conv(op, arch, nng)
+        convs, seen, todo = [], set(), [res]
+        while todo:
+            o = todo.pop()
+            if id(o) in seen:
+                continue
+            seen.add(id(o))
+            if o.type == Op.DepthwiseConv2DBias:
+                ro = o.read_offsets[0].as_list() if o.read_offsets[0] is not None else [0, 0, 0, 0]
+                rs = o.read_shapes[0].as_list() if o.read_shapes[0] is not None else o.ifm_shapes[0].as_list()
+                wsh = [int(v) for v in o.weights.shape]
+                convs.append([int(ro[1]), int(rs[1]), wsh[0], wsh[1], int(ro[2]), int(rs[2])] + [int(v) for v in o.ifm_shapes[0].as_list()])
+                continue
+            for t in o.inputs:
+                if t is not None:
+                    todo.extend(t.ops)
+        convs.sort()
+        out.append({"result_type": str(res.type), "convs": convs})
+    os.rmdir(tmp)
+    return out
+
+
 def main():
     cases = json.load(open(sys.argv[1]))
+    if len(sys.argv) > 3 and sys.argv[3] == "meanparts":
+        json.dump(main_meanparts(cases), open(sys.argv[2], "w"))
+        return
     if len(sys.argv) > 3 and sys.argv[3] == "padskirt":
         json.dump(main_padskirt(cases), open(sys.argv[2], "w"))
         return
